@@ -68,6 +68,11 @@ package geojson
 //@ pred jIs4(j interface{}, csss [][][][]float64) = typeof(j) == []interface{} && len(j.([]interface{})) == len(csss) && (forall i int :: 0 <= i && i < len(csss) ==> jIs3(j.([]interface{})[i], csss[i]))
 //@ pred numArray4(j interface{}) = typeof(j) == []interface{} && (forall i int :: 0 <= i && i < len(j.([]interface{})) ==> numArray3(j.([]interface{})[i]))
 
+//@ pred pairsJ2(j interface{}) = numArray2(j) && (forall k int :: 0 <= k && k < len(j.([]interface{})) ==> len(j.([]interface{})[k].([]interface{})) == 2)
+//@ pred pairsJ3(j interface{}) = numArray3(j) && (forall a int :: 0 <= a && a < len(j.([]interface{})) ==> pairsJ2(j.([]interface{})[a]))
+//@ pred pairsJ4(j interface{}) = numArray4(j) && (forall a int :: 0 <= a && a < len(j.([]interface{})) ==> pairsJ3(j.([]interface{})[a]))
+//@ pred pairs(cs [][]float64) = forall k int :: 0 <= k && k < len(cs) ==> len(cs[k]) == 2
+
 //@ func decodeCoordinates
 //@   prop C06, C07
 //@   mode fp
@@ -84,9 +89,11 @@ package geojson
 //@   panics_with *InvalidGeometryError
 //@   panics [not_an_array_of_number_arrays] !numArray2(jsonCoordinates)
 //@   ensures [values] fresh(result) && jIs2(jsonCoordinates, result)
+//@   ensures [pairs] pairsJ2(jsonCoordinates) ==> pairs(result)
 //@   modifies nothing
 //@   loop 1 `for i, element := range array`
 //@     invariant fresh(coordinates) && len(coordinates) == len(array) && #1 <= len(array) && (forall k int :: 0 <= k && k < #1 ==> jIs1(array[k], coordinates[k]))
+//@     invariant [lengths] forall k int :: {coordinates[k]} 0 <= k && k < #1 ==> len(coordinates[k]) == len(array[k].([]interface{}))
 
 //@ func decodeCoordinates3
 //@   prop C06, C07
@@ -94,10 +101,12 @@ package geojson
 //@   panics_with *InvalidGeometryError
 //@   panics [not_a_3_level_number_array] !numArray3(jsonCoordinates)
 //@   ensures [values] fresh(result) && jIs3(jsonCoordinates, result)
+//@   ensures [pairs] pairsJ3(jsonCoordinates) ==> (forall a int :: 0 <= a && a < len(result) ==> pairs(result[a]))
 //@   modifies nothing
 //@   loop 1 `for i, element := range array`
 //@     invariant [basic] fresh(coordinates) && len(coordinates) == len(array) && #1 <= len(array)
 //@     invariant [members] forall k int :: 0 <= k && k < #1 ==> jIs2(array[k], coordinates[k])
+//@     invariant [pairs] forall k int :: {coordinates[k]} 0 <= k && k < #1 ==> pairs(coordinates[k]) || !pairsJ2(array[k])
 
 //@ func decodeCoordinates4
 //@   prop C06, C07
@@ -105,12 +114,12 @@ package geojson
 //@   panics_with *InvalidGeometryError
 //@   panics [not_a_4_level_number_array] !numArray4(jsonCoordinates)
 //@   ensures [values] fresh(result) && jIs4(jsonCoordinates, result)
+//@   ensures [pairs] pairsJ4(jsonCoordinates) ==> (forall a int :: 0 <= a && a < len(result) ==> (forall b int :: 0 <= b && b < len(result[a]) ==> pairs(result[a][b])))
 //@   modifies nothing
 //@   loop 1 `for i, element := range array`
 //@     invariant [basic] fresh(coordinates) && len(coordinates) == len(array) && #1 <= len(array)
 //@     invariant [members] forall k int :: 0 <= k && k < #1 ==> jIs3(array[k], coordinates[k])
-
-//@ pred pairs(cs [][]float64) = forall k int :: 0 <= k && k < len(cs) ==> len(cs[k]) == 2
+//@     invariant [pairs] forall k int :: {coordinates[k]} 0 <= k && k < #1 ==> (forall b int :: 0 <= b && b < len(coordinates[k]) ==> pairs(coordinates[k][b])) || !pairsJ3(array[k])
 
 //@ func makeLinearRing
 //@   prop C06, C07
@@ -138,12 +147,18 @@ package geojson
 //@ pred jXYss(j interface{}, pss []geom.Path) = typeof(j) == []interface{} && len(j.([]interface{})) == len(pss) && (forall k int :: 0 <= k && k < len(pss) ==> jXYs(j.([]interface{})[k], pss[k]))
 //@ pred jXYsss(j interface{}, psss [][]geom.Path) = typeof(j) == []interface{} && len(j.([]interface{})) == len(psss) && (forall k int :: 0 <= k && k < len(psss) ==> jXYss(j.([]interface{})[k], psss[k]))
 
+// What the decoder must accept (C06: Decode(Encode(g)) succeeds): the coordinates member nests as
+// the type requires, every innermost array is an [x, y] pair of numbers, and the first member chain
+// is not empty. This is the shape encoding/json produces from what ToGeoJSON builds.
+//@ pred firstNonEmpty(j interface{}) = typeof(j) == []interface{} && len(j.([]interface{})) >= 1
+//@ pred accepted(g *Geometry) = (g.Type == "Point" && numArray(g.Coordinates) && len(g.Coordinates.([]interface{})) == 2) || ((g.Type == "MultiPoint" || g.Type == "LineString") && pairsJ2(g.Coordinates) && firstNonEmpty(g.Coordinates)) || ((g.Type == "MultiLineString" || g.Type == "Polygon") && pairsJ3(g.Coordinates) && firstNonEmpty(g.Coordinates) && firstNonEmpty(g.Coordinates.([]interface{})[0])) || (g.Type == "MultiPolygon" && pairsJ4(g.Coordinates) && firstNonEmpty(g.Coordinates) && firstNonEmpty(g.Coordinates.([]interface{})[0]) && firstNonEmpty(g.Coordinates.([]interface{})[0].([]interface{})[0]))
+
 //@ func doFromGeoJSON
 //@   prop C06, C07
 //@   mode fp
 //@   panics_with *InvalidGeometryError, *UnsupportedGeometryError
 //@   requires [nonnil] g != nil
-//@   panics [invalid_or_unsupported] true
+//@   panics [only_what_the_encoder_never_writes] !accepted(g)
 //@   ensures [point] g.Type == "Point" ==> typeof(result) == geom.Point && jXY(g.Coordinates, result.(geom.Point))
 //@   ensures [multipoint] g.Type == "MultiPoint" ==> typeof(result) == geom.MultiPoint && len(result.(geom.MultiPoint)) >= 1 && jXYs(g.Coordinates, result.(geom.MultiPoint))
 //@   ensures [linestring] g.Type == "LineString" ==> typeof(result) == geom.LineString && len(result.(geom.LineString)) >= 1 && jXYs(g.Coordinates, result.(geom.LineString))
@@ -167,6 +182,7 @@ package geojson
 //@   mode fp
 //@   requires [nonnil] geom != nil
 //@   ensures [geometry_or_error] (err == nil && typeof(g) != nil) || (err != nil && typeof(g) == nil)
+//@   ensures [accepts_what_the_encoder_writes] accepted(geom) ==> err == nil
 //@   ensures [known_type] err == nil ==> geom.Type == "Point" || geom.Type == "MultiPoint" || geom.Type == "LineString" || geom.Type == "MultiLineString" || geom.Type == "Polygon" || geom.Type == "MultiPolygon"
 //@   ensures [point] err == nil && geom.Type == "Point" ==> typeof(g) == geom.Point && jXY(geom.Coordinates, g.(geom.Point))
 //@   ensures [polygon] err == nil && geom.Type == "Polygon" ==> typeof(g) == geom.Polygon && jXYss(geom.Coordinates, g.(geom.Polygon))
